@@ -398,6 +398,50 @@ func runC20(c *Check) {
 				}
 			}
 		}
+		// the running size of that test counts what the batch already holds from the carry-over
+		// queue: its start value is the size the pop returned
+		if ok {
+			counts := false
+			var sizeS string
+			for _, f := range facts {
+				a, op, _, okc := canonCmp(f.Cond, f.Pol)
+				if !okc || (op != "<" && op != "<=") {
+					continue
+				}
+				a = a.unconv()
+				if a.Op != "bin" || a.Name != "+" || !strings.Contains(a.String(), "len(") {
+					continue
+				}
+				// the test of the transaction being appended: running size + len(tx)
+				lenSide := -1
+				for i, side := range a.Args {
+					if u := side.unconv(); u.IsCall("len") || (u.Op == "call" && u.Name == "len") {
+						lenSide = i
+					}
+				}
+				if lenSide < 0 {
+					continue
+				}
+				for i, side := range a.Args {
+					if i == lenSide {
+						continue
+					}
+					sizeS = trunc(side.String(), 100)
+					for _, leaf := range flattenPhi(side) {
+						if p.DeepContains(leaf, func(x *Term) bool {
+							return x.Op == "extract" && len(x.Args) > 0 && x.Args[0].IsCall("PersistentPendingTxs).PopUpToMaxBytes")
+						}, 1) {
+							counts = true
+						}
+					}
+				}
+			}
+			if counts {
+				c.OK("C20-R3", "GetNextBatch ⟂ size-test-counts-carried-over-bytes", fn, p.InstrPos(an.In), "the running size starts from the bytes popped from the carry-over queue", true)
+			} else {
+				c.Bad("C20-R3", "GetNextBatch ⟂ size-test-counts-carried-over-bytes", fn, p.InstrPos(an.In), "the running size compared with the limit ("+sizeS+") does not start from the bytes already popped from the carry-over queue: a batch that begins with carried-over transactions and is topped up from the DA layer can exceed the requested size", nil)
+			}
+		}
 		if ok {
 			c.OK("C20-R3", "GetNextBatch ⟂ append-under-size-test", fn, p.InstrPos(an.In), "a transaction is appended only if size+len(tx) stays below the requested size", true)
 		} else {
